@@ -484,6 +484,7 @@ func emit(name string, body string) {
 	if err == nil && string(old) == content {
 		return
 	}
+	os.MkdirAll(filepath.Dir(path), 0o755)
 	if err := os.WriteFile(path, []byte(content), 0o644); err != nil {
 		fail("write %s: %v", path, err)
 	}
@@ -512,6 +513,13 @@ func main() {
 			fail("unknown flag %s", args[0])
 		}
 		args = args[2:]
+	}
+	// generators may change the working directory (type checking runs inside the repository)
+	if abs, err := filepath.Abs(outDir); err == nil {
+		outDir = abs
+	}
+	if abs, err := filepath.Abs(repo); err == nil {
+		repo = abs
 	}
 	if len(args) == 0 {
 		for k := range generators {
